@@ -32,6 +32,12 @@ MANIFEST = {
             "model: a folder's visible health changes only in a timestep in which a scan of it completes (C09_health_*). Objects "
             "with one name: the statement presupposes distinct live names (Truth.NamesDistinct); under it the model's lookups are "
             "the Python dictionary lookups (C09_first_match_is_dict_lookup, counterexample without it). "
+            "Threshold triples: _validate_thresholds is TRANSLATED (Gen validateThresholds = Thr.valid for every triple, "
+            "C09_gen_validate_thresholds), the setters / constructor calls are regenerated (C09_gen_threshold_setters), the model "
+            "validates where components are constructed (before truncation), and every object ObservationManager builds holds only "
+            "strictly ascending triples (C09_built_thr_valid) - the invariant under which the code's if-chain equals the documented "
+            "band table (C09_band_eq_code). The not-ON family (C09Power) and the NMNE case table (by cases, not by source text) "
+            "are as in rounds 6 / 7. "
             "Tie: scan-gate keys and cache update (C09_gen_scan_gates), every ConfigSchema default, every push-down statement, "
             "constructor and padding arguments of every from_config / __init__ (C09_gen_schema_*, C09_gen_pushdown_*, "
             "C09_gen_ctor_args), the folder flag set at both writers of visible_health_status (C09_gen_folder_flag) + rig that reads "
@@ -39,7 +45,11 @@ MANIFEST = {
             "the scenario's observation_space SECTION (not read back from the constructed object), and diffs spec(truth) with the "
             "observation the environment returned at every step of random and adversarial trajectories (direct object mutation "
             "included), with non-default nodes-level options that hosts do not repeat; an ACL family on real routers / firewalls "
-            "with every presence combination of the seven rule fields.",
+            "with every presence combination of the seven rule fields; a threshold family on real components (ascending and every kind "
+            "of non-ascending triple: a component that exists must band by the documented table); in every ground-truth run a scripted "
+            "phase first drives every observed leaf away from its default (NMNE, counters, log-ins, traffic, link load) and THEN takes "
+            "the component away (power off through the countdown / OFF / booting, delete, uninstall), and an alias oracle checks after "
+            "every step that no stored default_observation of any observation object changed.",
     "note": "C09-specific: binned float leaves (NIC TRAFFIC, link PROTOCOLS) are excluded from the equality on steps where float rounding "
             "differs from the exact bin. The specification is independent of observe() but shares its threshold categoriser and "
             "dictionary-layout definitions. A listed network interface monitors only its OWN monitored_traffic (the host/nodes value "
@@ -47,7 +57,8 @@ MANIFEST = {
     "technique": "Lean 4 refinement proof (code encoder o describe_state = specification over objects; construction from the scenario) + ground-truth differential rig",
     "design_ref": "5/C09",
 }
-MODULES = ["PrimaiteModel.Props.C09", "PrimaiteModel.Props.C09Cfg", "PrimaiteModel.Props.C09Health", "PrimaiteModel.Props.C09Power"]
+MODULES = ["PrimaiteModel.Props.C09", "PrimaiteModel.Props.C09Cfg", "PrimaiteModel.Props.C09Health", "PrimaiteModel.Props.C09Power",
+           "PrimaiteModel.Props.C09Built"]
 EXE = "drv_c02"
 
 
@@ -188,7 +199,7 @@ def check_truth_run(ctx: Ctx, rname: str, res: dict, by_track: Dict[str, List[st
         step = -1
         for idx in range(tr["first"], len(tr["impl"])):
             cell = tr["impl"][idx]
-            if isinstance(cell, str) or cell[0] == "flatdim":
+            if isinstance(cell, str) or cell[0] in ("flatdim", "gflat"):
                 continue
             step += 1
             o, contained, fb = cell
@@ -204,7 +215,12 @@ def check_truth_run(ctx: Ctx, rname: str, res: dict, by_track: Dict[str, List[st
                 ok = False
                 d = rig.first_diff(a, b) or ""
                 path = d.split(": impl=")[0]
-                ctx.violation({"kind": "obs-vs-ground-truth", "leaf": path.rsplit("/", 1)[-1].split(":", 1)[-1], "property_oracle": "observation == spec(objects)"},
+                sig = {"kind": "obs-vs-ground-truth", "leaf": path.rsplit("/", 1)[-1].split(":", 1)[-1], "property_oracle": "observation == spec(objects)"}
+                if sig["leaf"] == "health_status" and "/s:FOLDERS/" in path and "/s:FILES/" not in path and \
+                        (res.get("replaced") or {}).get(f"{key.split(':', 1)[0]}:{step}"):
+                    # the class of F-C09-5 (repaired by 59ceb16): a folder deleted and created again under the same name between two observations
+                    sig["cause"] = "folder-replaced-within-one-tick"
+                ctx.violation(sig,
                               f"{rname} {key} step {step}: observation differs from the documented encoding of the objects "
                               f"(gates taken from the {'scenario file' if tr['mode'] == 'scenario' else 'constructed object'}): {d}",
                               {"recipe": recipe, "scenario": rname, "track": key, "step": step, "diff": d})
@@ -216,6 +232,66 @@ def check_truth_run(ctx: Ctx, rname: str, res: dict, by_track: Dict[str, List[st
                               {"recipe": recipe, "scenario": rname, "track": key, "step": step, "diff": rig.first_diff(a, m)})
                 break
     return ok
+
+
+# ----------------------------------------------------------------------------------------------- threshold bands on real objects
+def doc_band(triple, n: int) -> int:
+    """the documented table: the band is the number of thresholds (low, medium, high) the count has passed"""
+    return sum(1 for t in triple if t < n)
+
+
+def threshold_case(kind: str, triple) -> Dict[str, Any]:
+    """Construct the real component with this triple; {"built": False} when the constructor refuses it, else the first count whose
+    band differs from the documented table (counts from below `low` to above `high`)."""
+    from primaite.game.agent.observations.file_system_observations import FileObservation
+    from primaite.game.agent.observations.nic_observations import NICObservation
+    from primaite.game.agent.observations.software_observation import ApplicationObservation
+    lo, me, hi = triple
+    d = {"low": lo, "medium": me, "high": hi}
+    try:
+        if kind == "app_executions":
+            o = ApplicationObservation(where=None, applications_requires_scan=False, thresholds={kind: d})
+            f = o._categorise_num_executions
+        elif kind == "file_access":
+            o = FileObservation(where=None, include_num_access=True, file_system_requires_scan=False, thresholds={kind: d})
+            f = o._categorise_num_access
+        else:
+            o = NICObservation(where=None, include_nmne=True, monitored_traffic=None, thresholds={kind: d})
+            f = o._categorise_mne_count
+    except Exception as e:  # noqa: BLE001 - refusal is the outcome the model predicts for a triple that is not strictly ascending
+        return {"built": False, "error": f"{type(e).__name__}: {str(e)[:120]}"}
+    for n in range(min(triple) - 2, max(triple) + 3):
+        got = int(f(n))
+        if got != doc_band(triple, n):
+            return {"built": True, "bad": {"count": n, "band": got, "documented": doc_band(triple, n)}}
+    return {"built": True, "bad": None}
+
+
+def threshold_family(ctx: Ctx, rng: Rng, n: int) -> int:
+    """Every component that EXISTS encodes its counts by the documented table, whatever triple the scenario gave: ascending triples
+    (accepted) and every kind of non-ascending one (must be refused: with `medium < low` the code's if-chain and the table differ)."""
+    bad = 0
+    for i in range(n):
+        kind = rng.choice(["app_executions", "file_access", "nmne"])
+        lo = rng.range(-2, 6)
+        me = lo + rng.range(1, 5)
+        hi = me + rng.range(1, 6)
+        triple = rng.choice([(lo, me, hi)] * 3 + [(me, lo, hi), (lo, hi, me), (hi, me, lo), (lo, lo, hi), (lo, me, me), (hi, lo, me)])
+        r = threshold_case(kind, list(triple))
+        asc = triple[0] < triple[1] < triple[2]
+        ctx.count(f"thresholds:{'ascending' if asc else 'not-ascending'}:{'built' if r['built'] else 'refused'}")
+        ctx.case({"thresholds": kind, "triple": list(triple)}, True)
+        if r["built"] and r["bad"] is not None:
+            bad += 1
+            ctx.violation({"kind": "band-vs-documented-table", "component": kind, "triple": "ascending" if asc else "not-ascending",
+                           "property_oracle": "band == number of thresholds passed"},
+                          f"thresholds {kind} {list(triple)}: the constructed component reports band {r['bad']['band']} for the count {r['bad']['count']}, "
+                          f"the documented table says {r['bad']['documented']}", {"kind": "thresholds", "component": kind, "triple": list(triple), "result": r})
+        elif asc and not r["built"]:
+            bad += 1
+            ctx.violation({"kind": "ascending-thresholds-refused", "component": kind}, f"thresholds {kind} {list(triple)}: refused ({r['error']})",
+                          {"kind": "thresholds", "component": kind, "triple": list(triple), "result": r})
+    return bad
 
 
 # ----------------------------------------------------------------------------------------------- ACL family on real routers / firewalls
@@ -369,6 +445,8 @@ def run_witness(rec: dict) -> Dict[str, Any]:
             node.file_system.get_folder(op["folder"]).scan()
         elif op["op"] == "scan_node":
             node.scan()
+        elif op["op"] == "request":  # through the simulator's request interface, as an agent's action arrives
+            node.apply_request(op["request"])
         elif op["op"] == "acl_add":
             from primaite.simulator.network.hardware.nodes.network.router import ACLAction
             node.acl.add_rule(action=ACLAction.DENY, src_port=op["src_port"], position=op["position"])
@@ -381,7 +459,8 @@ def run_witness(rec: dict) -> Dict[str, Any]:
                     leaf = leaf[k]
                 n = game.simulation.network.get_node_by_hostname(chk["node"])
                 if chk["truth"] == "folder_visible":
-                    want = n.file_system.get_folder(chk["folder"]).visible_health_status.value
+                    fo_ = n.file_system.get_folder(chk["folder"])
+                    want = 0 if fo_ is None else fo_.visible_health_status.value  # a folder that is not there reads as the default
                 elif chk["truth"] == "acl_src_port_listed":
                     r = n.acl.acl[chk["position"]]
                     want = chk["id"] if r is not None and r.src_port == chk["port"] else leaf
@@ -393,6 +472,9 @@ def run_witness(rec: dict) -> Dict[str, Any]:
 
 def replay(rec: dict) -> bool:
     r = rec.get("replay", rec)
+    if r.get("kind") == "thresholds":
+        res = threshold_case(r["component"], r["triple"])
+        return (not res["built"]) or res["bad"] is None
     if "ops" in r or r.get("kind") == "construction":
         return run_witness(r)["ok"]
     if "cfg" in r and "diff" in r and r.get("recipe") is None:
@@ -488,6 +570,10 @@ def run(ctx: Ctx):
     bad = guarded(ctx, "slot oracle", slot_oracle, ctx, ctx.rng.fork("slots"), ctx.scale(150, 2000))
     if bad is not None:
         ctx.oblige("oracle: slot i reads configured component i, padding is where=None, surplus truncated", "correspondence", bad == 0, f"{bad} slot lists differ")
+    bad = guarded(ctx, "threshold family", threshold_family, ctx, ctx.rng.fork("thresholds"), ctx.scale(120, 1500))
+    if bad is not None:
+        ctx.oblige("oracle: every constructed component's band == documented table, for ascending and non-ascending triples", "correspondence", bad == 0,
+                   f"{bad} triples differ")
     bad = guarded(ctx, "acl family", acl_family, ctx, ctx.rng.fork("acl-family"), ctx.scale(12, 120))
     if bad is not None:
         ctx.oblige("rig:ACL family: every ACL leaf equals spec(rule objects)", "correspondence", bad == 0, f"{bad} cases differ")
